@@ -148,3 +148,130 @@ theorem insertAll_nil_isEmpty : ∀ (ps : List Path),
 
 end Mask
 end ScVerif.C05
+
+/-! ## `withoutNestedPaths` (`minimal`) -/
+namespace ScVerif.C05
+
+/-- Every path has at least one segment (true of every path that comes from a string). -/
+def NonNil (ps : List Path) : Prop := ∀ p ∈ ps, p ≠ []
+instance (ps : List Path) : Decidable (NonNil ps) := by unfold NonNil; infer_instance
+
+theorem hasPrefix_iff : ∀ (p q : Path), hasPrefix p q = true ↔ q <+: p
+  | _, [] => by simp [hasPrefix]
+  | [], b :: bs => by simp [hasPrefix]
+  | a :: as, b :: bs => by
+    simp only [hasPrefix, Bool.and_eq_true, decide_eq_true_eq, List.cons_prefix_cons, hasPrefix_iff as bs]
+    constructor
+    · rintro ⟨h1, h2⟩; exact ⟨h1.symm, h2⟩
+    · rintro ⟨h1, h2⟩; exact ⟨h1.symm, h2⟩
+
+theorem strictPrefix_iff (q p : Path) : strictPrefix q p = true ↔ q <+: p ∧ q.length < p.length := by
+  simp [strictPrefix, hasPrefix_iff]
+
+theorem strictPrefix_cons (a k : Name) (u t : Path) :
+    strictPrefix (a :: u) (k :: t) = (decide (a = k) && strictPrefix u t) := by
+  by_cases h : a = k
+  · subst h
+    rw [Bool.eq_iff_iff]
+    simp [strictPrefix_iff, List.cons_prefix_cons]
+  · rw [Bool.eq_iff_iff]
+    simp [strictPrefix_iff, List.cons_prefix_cons, h]
+
+theorem strictPrefix_nil_right (q : Path) : strictPrefix q [] = false := by
+  cases h : strictPrefix q [] with
+  | false => rfl
+  | true => have := (strictPrefix_iff q []).mp h; simp at this
+
+theorem mem_minimal {p : Path} {ps : List Path} :
+    p ∈ minimal ps ↔ p ∈ ps ∧ ∀ q ∈ ps, strictPrefix q p = false := by
+  simp [minimal, List.mem_filter]
+
+theorem minimal_subset {p : Path} {ps : List Path} (h : p ∈ minimal ps) : p ∈ ps := (mem_minimal.mp h).1
+
+theorem prefixFree_minimal (ps : List Path) : PrefixFree (minimal ps) := by
+  intro p hp q hq hpre
+  by_cases hlen : p.length < q.length
+  · have := (mem_minimal.mp hq).2 p (minimal_subset hp)
+    rw [(strictPrefix_iff p q).mpr ⟨hpre, hlen⟩] at this
+    cases this
+  · exact List.IsPrefix.eq_of_length_le hpre (by omega)
+
+theorem clean_minimal {ps : List Path} (h : Clean ps) : Clean (minimal ps) :=
+  fun p hp => h p (minimal_subset hp)
+
+theorem nonNil_minimal {ps : List Path} (h : NonNil ps) : NonNil (minimal ps) :=
+  fun p hp => h p (minimal_subset hp)
+
+/-- Every path of the list lies at or below an outermost one. -/
+theorem exists_minimal_prefix (ps : List Path) : ∀ (n : Nat) (p : Path), p.length ≤ n → p ∈ ps →
+    ∃ q ∈ minimal ps, q <+: p
+  | 0, p, hn, hp => by
+    refine ⟨p, mem_minimal.mpr ⟨hp, fun q _ => ?_⟩, List.prefix_refl _⟩
+    cases h : strictPrefix q p with
+    | false => rfl
+    | true => have := ((strictPrefix_iff q p).mp h).2; omega
+  | n + 1, p, hn, hp => by
+    by_cases hmin : ∀ q ∈ ps, strictPrefix q p = false
+    · exact ⟨p, mem_minimal.mpr ⟨hp, hmin⟩, List.prefix_refl _⟩
+    · have : ∃ q ∈ ps, strictPrefix q p = true := by
+        apply Classical.byContradiction
+        intro hne
+        apply hmin
+        intro q hq
+        cases h : strictPrefix q p with
+        | false => rfl
+        | true => exact absurd ⟨q, hq, h⟩ hne
+      obtain ⟨q, hq, hs⟩ := this
+      obtain ⟨hpre, hlen⟩ := (strictPrefix_iff q p).mp hs
+      obtain ⟨q', hq', hpre'⟩ := exists_minimal_prefix ps n q (by omega) hq
+      exact ⟨q', hq', List.IsPrefix.trans hpre' hpre⟩
+
+theorem minimal_eq_nil_iff (ps : List Path) : minimal ps = [] ↔ ps = [] := by
+  constructor
+  · intro h
+    cases ps with
+    | nil => rfl
+    | cons p rest =>
+      obtain ⟨q, hq, _⟩ := exists_minimal_prefix (p :: rest) p.length p (Nat.le_refl _) (List.mem_cons_self ..)
+      rw [h] at hq; cases hq
+  · intro h; subst h; rfl
+
+theorem nil_mem_minimal_iff (ps : List Path) : [] ∈ minimal ps ↔ [] ∈ ps := by
+  constructor
+  · exact minimal_subset
+  · intro h; exact mem_minimal.mpr ⟨h, fun q _ => strictPrefix_nil_right q⟩
+
+theorem tails_filter (k : Name) (P : Path → Bool) (Q : Path → Bool) (hPQ : ∀ t, P (k :: t) = Q t) :
+    ∀ ps : List Path, tails k (ps.filter P) = (tails k ps).filter Q
+  | [] => rfl
+  | [] :: ps => by
+    by_cases h : P [] <;> simp [List.filter_cons, h, tails, tails_filter k P Q hPQ ps]
+  | (a :: t) :: ps => by
+    by_cases ha : a = k
+    · subst ha
+      by_cases h : P (a :: t)
+      · have hq : Q t = true := by rw [← hPQ]; exact h
+        simp [List.filter_cons, h, hq, tails, tails_filter a P Q hPQ ps]
+      · have hq : Q t = false := by rw [← hPQ]; simpa using h
+        simp [List.filter_cons, h, hq, tails, tails_filter a P Q hPQ ps]
+    · by_cases h : P (a :: t) <;> simp [List.filter_cons, h, tails, ha, tails_filter k P Q hPQ ps]
+
+theorem any_strictPrefix_tails (k : Name) (t : Path) : ∀ (ps : List Path), NonNil ps →
+    ps.any (fun q => strictPrefix q (k :: t)) = (tails k ps).any (fun u => strictPrefix u t)
+  | [], _ => rfl
+  | [] :: ps, h => absurd rfl (h [] (List.mem_cons_self ..))
+  | (a :: u) :: ps, h => by
+    have ih := any_strictPrefix_tails k t ps (fun p hp => h p (List.mem_cons_of_mem _ hp))
+    by_cases ha : a = k
+    · subst ha; simp [tails, strictPrefix_cons, ih]
+    · simp [tails, strictPrefix_cons, ha, ih]
+
+/-- Dropping nested paths commutes with taking the continuations below a field. -/
+theorem tails_minimal (k : Name) (ps : List Path) (h : NonNil ps) :
+    tails k (minimal ps) = minimal (tails k ps) := by
+  unfold minimal
+  apply tails_filter
+  intro t
+  rw [any_strictPrefix_tails k t ps h]
+
+end ScVerif.C05
